@@ -172,9 +172,9 @@ func renderStruct(sb *strings.Builder, s StructDecl) {
 			recv = "x *" + s.Name
 		}
 		if g.RetErr {
-			fmt.Fprintf(sb, "func (%s) %s() (%s, error) { err := tr.HitE(%q); return x.%s, err }\n\n", recv, g.Name, g.Type, site+"."+g.Name, g.Field)
+			fmt.Fprintf(sb, "func (%s) %s() (%s, error) { err := tr.HitE(%q); return x.%s, err }\n\n", recv, g.Name, g.Type, "m:"+site+"."+g.Name, g.Field)
 		} else {
-			fmt.Fprintf(sb, "func (%s) %s() %s { tr.Hit(%q); return x.%s }\n\n", recv, g.Name, g.Type, site+"."+g.Name, g.Field)
+			fmt.Fprintf(sb, "func (%s) %s() %s { tr.Hit(%q); return x.%s }\n\n", recv, g.Name, g.Type, "m:"+site+"."+g.Name, g.Field)
 		}
 	}
 }
